@@ -7,4 +7,4 @@ git diff --quiet || { echo "/repo dirty"; exit 2; }
 git apply /verif/seeded/$id/patch.diff || exit 2
 cd /verif
 for i in $(seq -w 1 20); do ( out=$(bin/gzverify -prop C$i -tier quick 2>&1); rc=$?; [ $rc -ne 0 ] && echo "$id: C$i fires: $(echo "$out" | grep -m1 ' violated \[\| undecided \[' | cut -c1-260)" ) & done; wait
-git -C /repo checkout -- .
+git -C /repo checkout -q -- . && git -C /repo clean -fdq
